@@ -4,31 +4,31 @@ CONSTANTS
   ThrMode = "fixed"
   EmptyMode = "fixed"
   RstMode = "fixed"
-  CfgSet <- BindCfgs
+  CfgSet <- CloseCfgs
   SameCfg = TRUE
-  Openers = {"A", "B"}
+  Openers = {"A"}
   MaxOpens = 1
-  Ids = {1, 2}
+  Ids = {1}
   Hosts = {"h0"}
-  MaxWrites = 0
+  MaxWrites = 2
   Writers = {"A", "B"}
   Lens = {1}
   ReadMax = {4}
-  Closers = {}
-  MuxDroppers = {}
-  Cancellers = {"A"}
+  Closers = {"A", "B"}
+  MuxDroppers = {"A", "B"}
+  Cancellers = {}
   DgSenders = {}
   MaxDgrams = 0
-  Binders = {"A"}
-  MaxBinds = 1
-  Faults = {}
+  Binders = {}
+  MaxBinds = 0
+  Faults = {"cutsrc", "cutsink", "softcut"}
   AdvMsgs = {}
   MaxAdv = 0
   Bridgers = {}
-  SplitFlush = FALSE
+  SplitFlush = TRUE
   MaxNow = 0
-  MaxHandles = 2
-  MaxCtr = 3
+  MaxHandles = 1
+  MaxCtr = 1
 VIEW View
 CONSTRAINT Bound
 INVARIANTS NoViolation TypeOK AckSound QueueBound InitialCredit ExactlyOne TargetCarried BoundedRetry Released DoneResolved NoOrphanWriter
